@@ -141,12 +141,19 @@ pub fn config_text(cfg: &str, bundle: bool) -> String {
         ""
     } else if is_rc(cfg) {
         ", bundle: { require_mode: { name: 'path', use_luau_configuration: true } }"
+    } else if cfg == "aliasdup" {
+        ", bundle: { require_mode: { name: 'path', use_luau_configuration: false, sources: { '@lib': 'libD' } } }"
     } else {
         ", bundle: { require_mode: { name: 'path', use_luau_configuration: false } }"
     };
     match cfg {
         "luaurc" | "luaurcgap" => format!(
             "{{ generator: 'dense', rules: [ {{ rule: 'convert_require', current: {{ name: 'luau', use_luau_configuration: true }}, target: {{ name: 'path' }} }} ]{} }}",
+            b
+        ),
+        // two names for one directory in the target mode: whichever is written, every run writes the same one
+        "aliasdup" => format!(
+            "{{ generator: 'dense', rules: [ {{ rule: 'convert_require', current: {{ name: 'path', use_luau_configuration: false, sources: {{ '@lib': 'libD' }} }}, target: {{ name: 'path', use_luau_configuration: false, sources: {{ '@one': 'libD', '@two': 'libD', '@six': 'libD', '@ten': 'libD' }} }} }} ]{} }}",
             b
         ),
         "empty" => format!("{{ generator: 'dense', rules: []{} }}", b),
@@ -277,7 +284,7 @@ struct Plan {
 
 impl Plan {
     fn flavor(&self) -> Flavor {
-        Flavor { bundle: self.bundle, alias: is_rc(&self.cfg) }
+        Flavor { bundle: self.bundle, alias: is_rc(&self.cfg) || self.cfg == "aliasdup" }
     }
 }
 
@@ -310,6 +317,8 @@ fn run_process(resources: Resources, plan: &Plan, order: Option<&Registration>) 
                     std::process::exit(2);
                 }
             };
+            // sources of a require mode are relative to the location of the configuration: the root of the tree
+            let config = if cfg_text.contains("'@one'") { config.with_location("") } else { config };
             let mut options = Options::new(PathBuf::from(&input)).with_configuration(config);
             if let Some(o) = output {
                 options = options.with_output(PathBuf::from(o));
@@ -573,7 +582,7 @@ pub fn main(args: &[String]) -> i32 {
             }
         }
         let probe: Vec<(usize, String)> =
-            if rc { work.iter().map(|(e, src, dst)| (*e, dst.clone().unwrap_or_else(|| src.clone()))).collect() } else { Vec::new() };
+            if rc || plan.cfg == "aliasdup" { work.iter().map(|(e, src, dst)| (*e, dst.clone().unwrap_or_else(|| src.clone()))).collect() } else { Vec::new() };
         let w = World { plan: &plan, extra: &extra };
         let small = json!({"root": c["root"], "fi": c["fi"], "st": c["st"], "out": c["out"], "ff": c["ff"], "cfg": c["cfg"]});
         let mut worlds: Vec<&str> = vec!["fs"];
